@@ -14,10 +14,10 @@ RULE = ('evaluations = traced solves (cyclic / unknown-name / refusing-prompt pr
         'solve signatures + distinct history strings; histories are bounded-exhaustive in the thorough tier')
 ASSUMPTIONS = [
     'a per-line bound of 2 + distinct waits (documented retry after loading an input specification, double scheduling via field_names)',
-    'logical ceiling = 20000 line evaluations per generated program; wall-clock expiry is inconclusive, not a verdict',
+    'logical ceiling = 4000 line evaluations per generated program (small programs need fewer than 300); wall-clock expiry is inconclusive, not a verdict',
 ]
 
-CEILING = 20000
+CEILING = 4000
 
 
 def plan(tier, seed):
